@@ -93,7 +93,10 @@ func Finish(root, prop, tier string, ck *Check, total *explore.Counters, crashes
 				confirmed = true
 				break
 			}
-			fails, _, _ := explore.RerunCase(v.Exe, prop, tier, cs.Index, 5, 5*time.Minute, nil)
+			fails := 5
+			if !v.Confirmed {
+				fails, _, _ = explore.RerunCase(v.Exe, prop, tier, cs.Index, 5, 5*time.Minute, nil)
+			}
 			if fails == 5 {
 				confirmed = true
 				p := explore.WriteReplay(root, v, tier)
